@@ -6,6 +6,7 @@ import (
 	"fmt"
 	"os"
 	"strings"
+	"sync"
 	"sync/atomic"
 	"time"
 
@@ -228,6 +229,11 @@ func runSyncer(prop, tier string, r *rng) {
 			burstCase(prop, heads)
 		}
 		appendRaceCase(prop, 20, 30)
+		if os.Getenv("VERIF_NO_EMPTIEDWINDOW") == "" {
+			emptiedWindowCase(prop, 20, 23)
+			emptiedWindowCase(prop, 10, 30)
+		}
+		rangesCases(prop, tier, r)
 		// several pending ranges, later heads extending the last one beyond the running sync's target, on a store whose
 		// flush loop is busy (slow commits): what the sync loop hands to the store must not change under its feet
 		for _, b := range []int{1, 2, 3} {
@@ -667,4 +673,89 @@ func restartSyncCase(prop string) {
 	c2, cancel2 := context.WithTimeout(ctx, time.Second)
 	_ = run.st.Stop(c2)
 	cancel2()
+}
+
+// emptiedWindowCase: head `a` was verified by the gossip handler while the store head was still below it; the handler
+// is stopped after it read the store head. Head() learns a+1, the sync loop stores everything up to a+1 and cleans its
+// pending range; it is stopped right there (hook `sync.removed`), before it looks at the pending set again. The handler
+// goes on and puts `a` into the - now empty - pending set; then the loop goes on. Nothing may crash, and the end
+// state is the target, finished, error-free.
+func emptiedWindowCase(prop string, storeTo, a int) {
+	ctx := context.Background()
+	run := newSyncRun(storeTo)
+	run.s.VerifSetPolicy(100*time.Hour, time.Second, time.Millisecond) // the stored head is never "recent": Head() asks the network
+	var cur atomic.Pointer[vhdr.Header]
+	cur.Store(run.chain[storeTo-1])
+	run.g.headFn = func(*vhdr.Header) (*vhdr.Header, error) { return cur.Load(), nil }
+	sctx, cancel := context.WithTimeout(ctx, 3*time.Second)
+	err := run.s.Start(sctx)
+	cancel()
+	if err != nil {
+		emit("%s kind=emptiedwindow store=%d a=%d => start=err", prop, storeTo, a)
+		return
+	}
+	run.quiesce()
+	var armed atomic.Bool
+	loopParked, loopGo := make(chan struct{}), make(chan struct{})
+	var once sync.Once
+	store.VerifSetScheduler(func(_ context.Context, point string) {
+		if point == "sync.removed" && armed.Load() {
+			once.Do(func() { close(loopParked); <-loopGo })
+		}
+	})
+	defer store.VerifSetScheduler(nil)
+	c := run.chain[a-1]
+	gated := &vhdr.Header{Chain: c.Chain, H: c.H, T: c.T, Prev: c.Prev, Salt: c.Salt, VK: c.VK,
+		ParkIn: "setLocalHead", ParkDirect: true, ParkSkip: 1, Parked: make(chan struct{}), Release: make(chan struct{})}
+	gdone := make(chan string, 1)
+	go func() {
+		if err := run.sub.verifier(ctx, gated); err != nil {
+			gdone <- "refuse"
+		} else {
+			gdone <- "accept"
+		}
+	}()
+	parked := "yes"
+	select {
+	case <-gated.Parked:
+	case <-time.After(2 * time.Second):
+		parked = "no"
+	}
+	armed.Store(true)
+	cur.Store(run.chain[a]) // the network head is a+1
+	hdone := make(chan string, 1)
+	go func() {
+		hctx, cancelH := context.WithTimeout(ctx, 10*time.Second)
+		defer cancelH()
+		if h, err := run.s.Head(hctx); err == nil && h != nil {
+			hdone <- utoa(h.H)
+		} else {
+			hdone <- "err"
+		}
+	}()
+	lp := "yes"
+	select {
+	case <-loopParked:
+	case <-time.After(3 * time.Second):
+		lp = "no"
+	}
+	close(gated.Release)
+	gres := "hang"
+	select {
+	case gres = <-gdone:
+	case <-time.After(3 * time.Second):
+	}
+	hres := "hang"
+	select {
+	case hres = <-hdone:
+	case <-time.After(5 * time.Second):
+	}
+	armed.Store(false)
+	close(loopGo)
+	run.quiesce()
+	emit("%s kind=emptiedwindow store=%d a=%d => start=ok parked=%s loop=%s gossip=%s head1=%s %s", prop, storeTo, a, parked, lp, gres, hres, run.observe())
+	_ = run.s.Stop(ctx)
+	c2, cancel3 := context.WithTimeout(ctx, time.Second)
+	_ = run.st.Stop(c2)
+	cancel3()
 }
